@@ -85,6 +85,10 @@ def do_unit(unit, crate, workdir, seed, tier):
     cmd, rc, out, err, wall, to = run.run_verus(path, rlimit=unit.rlimit, seed=None, threads=4,
                                                 timeout=getattr(unit, 'timeout', 600))
     r = run.analyse(unit, text, path, cmd, rc, out, err, wall, to)
+    if r.status == 'undecided' and ('vacuity canary' in r.reason or 'no JSON result' in r.reason):
+        # seen once under machine overload: the canaries were not reported at all; one more attempt before giving up (still only ever exit 2)
+        cmd, rc, out, err, wall, to = run.run_verus(path, rlimit=unit.rlimit, seed=None, threads=4, timeout=getattr(unit, 'timeout', 600))
+        r = run.analyse(unit, text, path, cmd, rc, out, err, wall, to)
     r.log = log
     r.fingerprints = g.fingerprints
     r.seed_runs = []
